@@ -8,12 +8,6 @@ From GoSecs Require Import Base.Decimal Base.DecimalProofs Base.Utf8 Sml.Syntax 
 Import ListNotations.
 Open Scope Z_scope.
 
-Fixpoint depth (x : item) : nat :=
-  match x with
-  | IList cs => S (fold_right (fun c m => Nat.max (depth c) m) O cs)
-  | _ => O
-  end.
-
 (** a character that may follow an item: not a space and not the start of a comment *)
 Definition follow (c : Z) : Prop := is_sml_space c = false /\ c <> 47.
 
@@ -55,19 +49,20 @@ Section Roundtrip.
 
   (** what "the parser reads item x back" means at one place of the input *)
   Definition reads_back (x : item) : Prop :=
-    forall fuel level pre ws ws' c rest',
-      (depth x < fuel)%nat -> Forall is_ws ws -> Forall is_ws ws' -> follow c ->
+    forall fuel dp level pre ws ws' c rest',
+      (depth x < fuel)%nat -> dp + Z.of_nat (depth x) <= max_list_depth ->
+      Forall is_ws ws -> Forall is_ws ws' -> follow c ->
       input = pre ++ ws ++ body o level x ++ ws' ++ c :: rest' ->
       exists x' q,
-        pitem fuel (mkst pre (ws ++ body o level x ++ ws' ++ c :: rest')) = POk x' (mkst q (c :: rest'))
+        pitem fuel dp (mkst pre (ws ++ body o level x ++ ws' ++ c :: rest')) = POk x' (mkst q (c :: rest'))
         /\ input = q ++ c :: rest' /\ eqv x x'.
 
   (** the frame of every sized item: bracket, type, size; then the body parser; then skipComment *)
-  Lemma item_frame ty n B fuel pre ws :
+  Lemma item_frame ty n B fuel dp pre ws :
     input = pre ++ ws ++ c_lt :: type_chars ty ++ c_lb :: format_int n ++ c_rb :: B ->
     Forall is_ws ws -> 0 <= n <= max_byte_size ->
-    pitem (S fuel) (mkst pre (ws ++ c_lt :: type_chars ty ++ c_lb :: format_int n ++ c_rb :: B)) =
-    match parse_body fparse input (pitem fuel) ty
+    pitem (S fuel) dp (mkst pre (ws ++ c_lt :: type_chars ty ++ c_lb :: format_int n ++ c_rb :: B)) =
+    match parse_body fparse input (pitem fuel) ty dp
             (skip_comment input (mkst (pre ++ ws ++ c_lt :: type_chars ty ++ c_lb :: format_int n ++ [c_rb]) B)) with
     | POk x st => POk x (skip_comment input st)
     | e => e
@@ -99,14 +94,14 @@ Section Roundtrip.
 
   (** a leaf whose values are space-separated tokens *)
   Lemma value_leaf {A} ty (tok : bytes -> option A) e (mk : list A -> item) n ts vs
-        fuel pre ws ws' c rest' :
-    (forall pi st, parse_body fparse input pi ty st = parse_values input tok e mk st) ->
+        fuel dp pre ws ws' c rest' :
+    (forall pi d st, parse_body fparse input pi ty d st = parse_values input tok e mk st) ->
     forallb good_tok ts = true -> map_opt tok ts = Some vs -> 0 <= n <= max_byte_size ->
     Forall is_ws ws -> Forall is_ws ws' -> follow c ->
     input = pre ++ ws ++ (c_lt :: type_chars ty ++ c_lb :: format_int n ++ c_rb ::
                           flat_map (fun x => c_sp :: x) ts ++ [c_gt]) ++ ws' ++ c :: rest' ->
     exists q,
-      pitem (S fuel) (mkst pre (ws ++ (c_lt :: type_chars ty ++ c_lb :: format_int n ++ c_rb ::
+      pitem (S fuel) dp (mkst pre (ws ++ (c_lt :: type_chars ty ++ c_lb :: format_int n ++ c_rb ::
                           flat_map (fun x => c_sp :: x) ts ++ [c_gt]) ++ ws' ++ c :: rest'))
       = POk (mk vs) (mkst q (c :: rest')) /\ input = q ++ c :: rest'.
   Proof.
@@ -116,7 +111,7 @@ Section Roundtrip.
       = c_lt :: type_chars ty ++ c_lb :: format_int n ++ c_rb :: (flat_map (fun x => c_sp :: x) ts ++ c_gt :: X)).
     { intros X. lnorm. reflexivity. }
     rewrite Shape in *.
-    rewrite (item_frame ty n _ fuel pre ws Hin Fws Hn).
+    rewrite (item_frame ty n _ fuel dp pre ws Hin Fws Hn).
     set (P := pre ++ ws ++ c_lt :: type_chars ty ++ c_lb :: format_int n ++ [c_rb]).
     assert (HinP : input = P ++ flat_map (fun x => c_sp :: x) ts ++ c_gt :: ws' ++ c :: rest').
     { subst P. lsolve Hin. }
@@ -200,12 +195,12 @@ Section Roundtrip.
   Lemma reads_int w vs : dom_item egt quote_plain (IInt w vs) = true -> reads_back (IInt w vs).
   Proof.
     intros D. cbn [dom_item] in D. apply andb_true_iff in D. destruct D as [D1 D2].
-    intros fuel level pre ws ws' c rest' Hf Fws Fws' Fc Hin.
+    intros fuel dp level pre ws ws' c rest' Hf Hdp Fws Fws' Fc Hin.
     destruct (fuel_pos _ _ Hf) as (f & ->).
     cbn [enc_body encode_item_w] in *. unfold encode_int in *. rewrite storage_shape in *.
     change (73 :: format_int (wbytes w)) with (type_chars (TInt w)) in *.
     destruct (value_leaf (TInt w) (int_token w) PE_Int (IInt w) (Z.of_nat (length vs)) (map format_int vs) vs
-                f pre ws ws' c rest') as (q & R & Hq); try assumption.
+                f dp pre ws ws' c rest') as (q & R & Hq); try assumption.
     - reflexivity.
     - apply forallb_map_true. intros; apply format_int_good.
     - rewrite (map_opt_map format_int (int_token w) (fun v => v)); [rewrite map_id; reflexivity|].
@@ -218,12 +213,12 @@ Section Roundtrip.
   Lemma reads_uint w vs : dom_item egt quote_plain (IUint w vs) = true -> reads_back (IUint w vs).
   Proof.
     intros D. cbn [dom_item] in D. apply andb_true_iff in D. destruct D as [D1 D2].
-    intros fuel level pre ws ws' c rest' Hf Fws Fws' Fc Hin.
+    intros fuel dp level pre ws ws' c rest' Hf Hdp Fws Fws' Fc Hin.
     destruct (fuel_pos _ _ Hf) as (f & ->).
     cbn [enc_body encode_item_w] in *. unfold encode_uint in *. rewrite storage_shape in *.
     change (85 :: format_int (wbytes w)) with (type_chars (TUint w)) in *.
     destruct (value_leaf (TUint w) (uint_token w) PE_Uint (IUint w) (Z.of_nat (length vs)) (map format_uint vs) vs
-                f pre ws ws' c rest') as (q & R & Hq); try assumption.
+                f dp pre ws ws' c rest') as (q & R & Hq); try assumption.
     - reflexivity.
     - apply forallb_map_true. intros v Hv. apply format_uint_good.
       rewrite forallb_forall in D2. specialize (D2 v Hv). unfold uint_in in D2. lia.
@@ -237,13 +232,13 @@ Section Roundtrip.
   Lemma reads_boolean vs : dom_item egt quote_plain (IBoolean vs) = true -> reads_back (IBoolean vs).
   Proof.
     intros D. cbn [dom_item] in D.
-    intros fuel level pre ws ws' c rest' Hf Fws Fws' Fc Hin.
+    intros fuel dp level pre ws ws' c rest' Hf Hdp Fws Fws' Fc Hin.
     destruct (fuel_pos _ _ Hf) as (f & ->).
     cbn [enc_body encode_item_w] in *. unfold encode_boolean in *. rewrite storage_shape in *.
     change s_BOOLEAN with (type_chars TBoolean) in *.
     destruct (value_leaf TBoolean bool_token PE_Bool IBoolean (Z.of_nat (length vs))
                 (map (fun v : bool => if v then s_True else s_False) vs) vs
-                f pre ws ws' c rest') as (q & R & Hq); try assumption.
+                f dp pre ws ws' c rest') as (q & R & Hq); try assumption.
     - reflexivity.
     - apply forallb_map_true. intros [|] _; reflexivity.
     - rewrite (map_opt_map (fun v : bool => if v then s_True else s_False) bool_token (fun v => v)); [rewrite map_id; reflexivity|].
@@ -256,7 +251,7 @@ Section Roundtrip.
   Proof.
     intros D. cbn [dom_item] in D. apply andb_true_iff in D. destruct D as [D1 D2].
     pose proof (bytes_ok_Forall _ D1) as FB. rewrite Forall_forall in FB.
-    intros fuel level pre ws ws' c rest' Hf Fws Fws' Fc Hin.
+    intros fuel dp level pre ws ws' c rest' Hf Hdp Fws Fws' Fc Hin.
     destruct (fuel_pos _ _ Hf) as (f & ->).
     cbn [enc_body encode_item_w] in *. unfold encode_binary in *.
     set (tk := fun b => if eo_binary_literal o then 48 :: 98 :: format_bin b else tok_hex b).
@@ -272,7 +267,7 @@ Section Roundtrip.
       unfold blen. cbn [type_chars]. lnorm. reflexivity. }
     rewrite Sh in *.
     destruct (value_leaf TBinary binary_token PE_Binary IBinary (Z.of_nat (length bs)) (map tk bs) bs
-                f pre ws ws' c rest') as (q & R & Hq); try assumption.
+                f dp pre ws ws' c rest') as (q & R & Hq); try assumption.
     - reflexivity.
     - apply forallb_map_true. intros b Hb. specialize (FB b Hb). unfold is_byte in FB. subst tk. cbv beta.
       destruct (eo_binary_literal o); [apply format_bin_good; lia|apply tok_hex_good; exact FB].
@@ -298,13 +293,13 @@ Section Roundtrip.
   Lemma reads_float w vs : dom_item egt quote_plain (IFloat w vs) = true -> reads_back (IFloat w vs).
   Proof.
     intros D. cbn [dom_item] in D. apply andb_true_iff in D. destruct D as [D1 D2].
-    intros fuel level pre ws ws' c rest' Hf Fws Fws' Fc Hin.
+    intros fuel dp level pre ws ws' c rest' Hf Hdp Fws Fws' Fc Hin.
     destruct (fuel_pos _ _ Hf) as (f & ->).
     cbn [enc_body encode_item_w] in *. unfold encode_float in *. rewrite storage_shape in *.
     change (70 :: format_int (fbytes w)) with (type_chars (TFloat w)) in *.
     destruct (floats_back w vs D2) as (vs' & M & E).
     destruct (value_leaf (TFloat w) (fparse w) PE_Float (IFloat w) (Z.of_nat (length vs)) (map (ffmt w) vs) vs'
-                f pre ws ws' c rest') as (q & R & Hq); try assumption.
+                f dp pre ws ws' c rest') as (q & R & Hq); try assumption.
     - reflexivity.
     - apply forallb_map_true. intros v Hv. apply ffmt_good. rewrite forallb_forall in D2. apply D2. exact Hv.
     - apply (len_bound _ (fbytes w)); [lia|destruct w; cbv; discriminate|lia].
@@ -344,7 +339,7 @@ Section Roundtrip.
     assert (NG : egt = false -> ~ In c_gt s).
     { intros E. rewrite E in D3. cbn [orb] in D3. apply no_gt_spec. exact D3. }
     pose proof quote_byte_is_q as Q.
-    intros fuel level pre ws ws' c rest' Hf Fws Fws' Fc Hin.
+    intros fuel dp level pre ws ws' c rest' Hf Hdp Fws Fws' Fc Hin.
     destruct (fuel_pos _ _ Hf) as (f & ->).
     cbn [enc_body encode_item_w] in *. unfold encode_string in *. rewrite eo_strict_true in *.
     set (q := quote_byte o) in *. set (X := ws' ++ c :: rest') in *.
@@ -352,7 +347,7 @@ Section Roundtrip.
                  = c_lt :: type_chars TAscii ++ c_lb :: format_int (blen s) ++ c_rb :: (c_sp :: wsa q s ++ c_gt :: X)).
     { cbn [type_chars]. lnorm. reflexivity. }
     rewrite Sh in *.
-    rewrite (item_frame TAscii (blen s) _ f pre ws Hin Fws) by (pose proof (blen_nonneg s); lia).
+    rewrite (item_frame TAscii (blen s) _ f dp pre ws Hin Fws) by (pose proof (blen_nonneg s); lia).
     set (P := pre ++ ws ++ c_lt :: type_chars TAscii ++ c_lb :: format_int (blen s) ++ [c_rb]).
     assert (HinP : input = P ++ [c_sp] ++ wsa q s ++ c_gt :: X) by (subst P; lsolve Hin).
     destruct (wsa_head q s) as (h & r & Eh & Hh). 
@@ -402,7 +397,7 @@ Section Roundtrip.
     apply andb_true_iff in D. destruct D as [D1 D2].
     pose proof (bytes_ok_Forall _ D1) as FB. pose proof (no_gt_spec _ D3) as NG.
     pose proof quote_byte_is_q as Q.
-    intros fuel level pre ws ws' c rest' Hf Fws Fws' Fc Hin.
+    intros fuel dp level pre ws ws' c rest' Hf Hdp Fws Fws' Fc Hin.
     destruct (fuel_pos _ _ Hf) as (f & ->).
     cbn [enc_body encode_item_w] in *. unfold encode_string in *.
     set (q := quote_byte o) in *. set (X := ws' ++ c :: rest') in *.
@@ -410,7 +405,7 @@ Section Roundtrip.
                  = c_lt :: type_chars TJis8 ++ c_lb :: format_int (blen s) ++ c_rb :: (c_sp :: q :: s ++ q :: c_gt :: X)).
     { cbn [type_chars]. lnorm. reflexivity. }
     rewrite Sh in *.
-    rewrite (item_frame TJis8 (blen s) _ f pre ws Hin Fws) by (pose proof (blen_nonneg s); lia).
+    rewrite (item_frame TJis8 (blen s) _ f dp pre ws Hin Fws) by (pose proof (blen_nonneg s); lia).
     set (P := pre ++ ws ++ c_lt :: type_chars TJis8 ++ c_lb :: format_int (blen s) ++ [c_rb]).
     assert (HinP : input = P ++ [c_sp] ++ q :: s ++ q :: c_gt :: X) by (subst P; lsolve Hin).
     assert (NSq : is_sml_space q = false) by (destruct Q as [E|E]; rewrite E; reflexivity).
@@ -430,7 +425,7 @@ Section Roundtrip.
     intros D. cbn [dom_item] in D. apply andb_true_iff in D. destruct D as [D D4].
     apply andb_true_iff in D. destruct D as [D D3]. apply andb_true_iff in D. destruct D as [D1 D2].
     pose proof (bytes_ok_Forall _ D1) as FB. pose proof (no_gt_spec _ D3) as NG.
-    intros fuel level pre ws ws' c rest' Hf Fws Fws' Fc Hin.
+    intros fuel dp level pre ws ws' c rest' Hf Hdp Fws Fws' Fc Hin.
     destruct (fuel_pos _ _ Hf) as (f & ->).
     cbn [enc_body encode_item_w] in *. rewrite (quote_law s D4) in *.
     set (X := ws' ++ c :: rest') in *.
@@ -506,14 +501,15 @@ Section Roundtrip.
 
   Lemma list_loop level X : forall cs,
     Forall reads_back cs -> forallb (dom_item egt quote_plain) cs = true ->
-    forall fuel n acc p W d,
-      (forall c, In c cs -> (depth c < fuel)%nat) -> (length cs < n)%nat ->
+    forall fuel dp n acc p W d,
+      (forall c, In c cs -> (depth c < fuel)%nat) ->
+      (forall c, In c cs -> dp + Z.of_nat (depth c) <= max_list_depth) -> (length cs < n)%nat ->
       Forall is_ws W -> W ++ d = tail_text level cs X -> input = p ++ d ->
       exists cs' q,
-        parse_list_loop input (pitem fuel) n (mkst p d) acc = POk (IList (rev acc ++ cs')) (mkst q X)
+        parse_list_loop input (pitem fuel dp) n (mkst p d) acc = POk (IList (rev acc ++ cs')) (mkst q X)
         /\ input = q ++ X /\ Forall2 eqv cs cs'.
   Proof.
-    induction cs as [|c1 cs IH]; intros RB D fuel n acc p W d Hd Hn FW E Hin.
+    induction cs as [|c1 cs IH]; intros RB D fuel dp n acc p W d Hd Hdp Hn FW E Hin.
     - (* only the closing bracket is left *)
       unfold tail_text in E. cbn [flat_map app] in E.
       destruct (ws_prefix W FW (rep (eo_indent o) level) c_gt X d (rep_ws level) eq_refl E) as (W2 & EW & ->).
@@ -542,14 +538,15 @@ Section Roundtrip.
       assert (HinC : input = (p ++ W2) ++ [] ++ body o (S level) c1 ++ (c_nl :: Wf) ++ c0 :: r).
       { rewrite Hin, Eb. lnorm. rewrite ET. lnorm. reflexivity. }
       assert (FnlWf : Forall is_ws (c_nl :: Wf)) by (constructor; [reflexivity|exact FWf]).
-      destruct (RB1 fuel (S level) (p ++ W2) [] (c_nl :: Wf) c0 r (Hd c1 (or_introl eq_refl))
-                  (Forall_nil _) FnlWf Fol HinC) as (x1 & q1 & R1 & Hq1 & Ev1).
+      destruct (RB1 fuel dp (S level) (p ++ W2) [] (c_nl :: Wf) c0 r (Hd c1 (or_introl eq_refl))
+                  (Hdp c1 (or_introl eq_refl)) (Forall_nil _) FnlWf Fol HinC) as (x1 & q1 & R1 & Hq1 & Ev1).
       assert (Same : mkst (p ++ W2) (c_lt :: b1 ++ c_nl :: tail_text level cs X)
                      = mkst (p ++ W2) ([] ++ body o (S level) c1 ++ (c_nl :: Wf) ++ c0 :: r)).
       { f_equal. rewrite Eb, ET. lnorm. reflexivity. }
       rewrite Same, R1.
-      destruct (IH RBs D fuel n (x1 :: acc) q1 Wf (c0 :: r)) as (cs' & q & R & Hq & Ev).
+      destruct (IH RBs D fuel dp n (x1 :: acc) q1 Wf (c0 :: r)) as (cs' & q & R & Hq & Ev).
       + intros c Hc. apply Hd. right. exact Hc.
+      + intros c Hc. apply Hdp. right. exact Hc.
       + cbn [length] in Hn. lia.
       + exact FWf.
       + symmetry. exact ET.
@@ -561,8 +558,12 @@ Section Roundtrip.
   Lemma reads_list cs : Forall reads_back cs -> dom_item egt quote_plain (IList cs) = true -> reads_back (IList cs).
   Proof.
     intros RB D. cbn [dom_item] in D. apply andb_true_iff in D. destruct D as [D1 D2].
-    intros fuel level pre ws ws' c rest' Hf Fws Fws' Fc Hin.
+    intros fuel dp level pre ws ws' c rest' Hf Hdp Fws Fws' Fc Hin.
     destruct fuel as [|f]; [lia|]. cbn [depth] in Hf.
+    assert (Dok : (dp + 1 >? max_list_depth) = false).
+    { cbn [depth] in Hdp. rewrite Nat2Z.inj_succ in Hdp. lia. }
+    assert (Dch : forall x, In x cs -> dp + 1 + Z.of_nat (depth x) <= max_list_depth).
+    { intros x Hx. pose proof (depth_child x cs Hx). cbn [depth] in Hdp. rewrite Nat2Z.inj_succ in Hdp. lia. }
     set (X := ws' ++ c :: rest') in *.
     destruct cs as [|c1 cs'].
     - (* <L[0]> *)
@@ -570,12 +571,12 @@ Section Roundtrip.
       assert (Sh : [c_lt; 76; c_lb; 48; c_rb; c_gt] ++ X
                    = c_lt :: type_chars TList ++ c_lb :: format_int 0 ++ c_rb :: (c_gt :: X)) by reflexivity.
       rewrite Sh in *.
-      rewrite (item_frame TList 0 _ f pre ws Hin Fws) by (unfold max_byte_size; lia).
+      rewrite (item_frame TList 0 _ f dp pre ws Hin Fws) by (unfold max_byte_size; lia).
       set (P := pre ++ ws ++ c_lt :: type_chars TList ++ c_lb :: format_int 0 ++ [c_rb]).
       assert (HinP : input = P ++ c_gt :: X) by (subst P; lsolve Hin).
       pose proof (skip_comment_ws input P [] c_gt X) as S1. cbn [app] in S1. rewrite app_nil_r in S1.
       rewrite S1 by (try exact HinP; try constructor; try reflexivity; discriminate).
-      cbn [parse_body parse_list_loop].
+      cbn [parse_body]. rewrite Dok. cbn [parse_list_loop].
       pose proof (peek_ns_ws input P [] c_gt X) as P1. cbn [app] in P1. rewrite app_nil_r in P1.
       rewrite P1 by (try exact HinP; try constructor; reflexivity).
       change (c_gt =? c_lt) with false. rewrite Z.eqb_refl. cbv iota beta.
@@ -595,7 +596,7 @@ Section Roundtrip.
                    = c_lt :: type_chars TList ++ c_lb :: format_int (Z.of_nat (length cs)) ++ c_rb :: (c_nl :: tail_text level cs X)).
       { unfold tail_text. cbn [type_chars]. lnorm. reflexivity. }
       rewrite Sh in *.
-      rewrite (item_frame TList (Z.of_nat (length cs)) _ f pre ws Hin Fws) by lia.
+      rewrite (item_frame TList (Z.of_nat (length cs)) _ f dp pre ws Hin Fws) by lia.
       set (P := pre ++ ws ++ c_lt :: type_chars TList ++ c_lb :: format_int (Z.of_nat (length cs)) ++ [c_rb]).
       destruct (tail_text_shape level cs X D2) as (Wf & c0 & r & ET & FWf & Hc0).
       assert (NS0 : is_sml_space c0 = false) by (destruct Hc0 as [->| ->]; reflexivity).
@@ -603,9 +604,10 @@ Section Roundtrip.
       assert (HinP : input = P ++ (c_nl :: Wf) ++ c0 :: r) by (subst P; rewrite Hin, ET; lnorm; reflexivity).
       assert (S1 : skip_comment input (mkst P (c_nl :: tail_text level cs X)) = mkst (P ++ c_nl :: Wf) (c0 :: r)).
       { rewrite ET. apply (skip_comment_ws input P (c_nl :: Wf) c0 r HinP); [constructor; [reflexivity|exact FWf]|exact NS0|exact N47]. }
-      rewrite S1. cbn [parse_body data mkst].
-      destruct (list_loop level X cs RB D2 f (S (length (c0 :: r))) [] (P ++ c_nl :: Wf) Wf (c0 :: r)) as (cs'' & q & R & Hq & Ev).
+      rewrite S1. cbn [parse_body]. rewrite Dok. cbn [data mkst].
+      destruct (list_loop level X cs RB D2 f (dp + 1) (S (length (c0 :: r))) [] (P ++ c_nl :: Wf) Wf (c0 :: r)) as (cs'' & q & R & Hq & Ev).
       + intros x Hx. pose proof (depth_child x cs Hx). lia.
+      + exact Dch.
       + pose proof (tail_text_len level cs X) as L. rewrite ET, app_length in L.
         (* every child contributes its bracket and its newline after the first indentation *)
         assert (length cs <= length (c0 :: r))%nat; [|lia].
